@@ -190,9 +190,6 @@ Print Assumptions C14_if_not_missing_refuted.
 Theorem C14_substitute_count_refuted : refutes w_subst_count = true /\ refutes w_subst_count0 = true /\ refutes w_subst_count_neg = true.
 Proof. exact substitute_count_refuted. Qed.
 Print Assumptions C14_substitute_count_refuted.
-Theorem C14_assoc_refuted : refutes w_assoc_order = true.
-Proof. exact assoc_refuted. Qed.
-Print Assumptions C14_assoc_refuted.
 Theorem C14_mismatch_refuted : refutes w_mismatch_from_end = true.
 Proof. exact mismatch_refuted. Qed.
 Print Assumptions C14_mismatch_refuted.
